@@ -394,6 +394,11 @@ def gen_arp_nd_echo(runner, tier, seed):
             d = bytes(r.randrange(256) for _ in range(n))
             fr.append(p4.echo(r.randrange(65536), r.randrange(65536), d))
             fr.append(p6.echo(r.randrange(65536), r.randrange(65536), d))
+        # echo requests larger than one Ethernet MTU (offloaded / jumbo frames): data still identical
+        for n in (1473, 1474, 1500, 1600, 4000, 8972, 20000):
+            d = bytes((i * 13 + n) & 255 for i in range(n))
+            fr.append(p4.echo(n & 0xffff, 3, d))
+            fr.append(p6.echo(n & 0xffff, 3, d))
         # truncated echo (ICMP header only / shorter)
         for n in range(0, 8):
             fr.append(p4.l3(1, icmp_echo(1, 2, b"")[:n]))
@@ -459,8 +464,11 @@ def gen_syn(runner, tier, seed):
         alt_b = rand_ip6(r) if v6 else rand_ip4(r)
         # the same tuples under every key: a pair of flows that differ in exactly one input and
         # still share a cookie under three unrelated keys shows that the input is ignored
-        base.append([(a, b, sp, dp), (a, b, sp, dp), (alt_a, b, sp, dp), (a, alt_b, sp, dp),
-                     (a, b, sp ^ (1 << r.randrange(16)), dp), (a, b, sp, dp ^ (1 << r.randrange(16))), (b, a, dp, sp)])
+        variants = [(a, b, sp, dp), (a, b, sp, dp), (alt_a, b, sp, dp), (a, alt_b, sp, dp),
+                    (a, b, sp ^ (1 << r.randrange(16)), dp), (a, b, sp, dp ^ (1 << r.randrange(16))), (b, a, dp, sp)]
+        if not v6:
+            variants.append(("::ffff:" + a, "::ffff:" + b, sp, dp))      # the IPv4-mapped twin: other addresses, other flow
+        base.append(variants)
     s = None
     for key in KEYS[:3]:
         cfgk = Config(SMAC, None, None, key, "none", 0)
@@ -501,6 +509,12 @@ def gen_log(runner, tier, seed):
                     fr.append(p.udp(r.randrange(65536), r.randrange(65536), pl))
             fr.append(eth(SMAC, cm, 0x0806, arp(2, cm, C4, SMAC, S4)))
             fr.append(eth(SMAC, cm, 0x86DD, ipv6(C6, S6, 58, nd_ns(C6, S6, S6)[:20], hlim=255)))
+            # frames and replies of unusual size: larger than one MTU, minimum size with Ethernet padding
+            for n in (1472, 1473, 1600, 8972):
+                fr.append(p4.echo(1, 1, b"j" * n))
+                fr.append(p6.echo(1, 1, b"j" * n))
+            fr.append(p4.udp(1, 2, http_request("GET", b"/" + b"a" * 1500)))
+            fr.append(eth(b"\xff" * 6, cm, 0x0806, arp(1, cm, C4, "00:00:00:00:00:00", S4, trailer=b"\0" * 18)))
             s.send(fr)
             flows = [(p, 7000 + i, 80, 1, [pl]) for i, pl in enumerate(app_requests(r, tcpmode=True)) for p in (p4, p6)]
             tcp_batch(s, flows)
@@ -684,6 +698,7 @@ def gen_interference(runner, tier, seed):
             flows.append(Flow(Peer(CMAC, SMAC, C4, S4), sp + 1, dp, r.randrange(1 << 32)))
             flows.append(Flow(Peer(CMAC, SMAC, C6, S6), sp, dp + 1, r.randrange(1 << 32)))
             flows.append(Flow(Peer(CMAC, SMAC, C4, S4), dp, sp, r.randrange(1 << 32)))
+            flows.append(Flow(Peer(CMAC, SMAC, "::ffff:" + C4, "::ffff:" + S4), sp, dp, r.randrange(1 << 32)))   # IPv4-mapped twin of the first
         live = open_flows(s, flows)
         plans = []
         for f in live:
@@ -1000,13 +1015,22 @@ def gen_stun(runner, tier, seed):
             v = struct.pack(">I", r.choice([0, 2, 4, 6])) if t == 3 else rb(r, l)
             attrs += stun_attr(t, v)
         if magic and r.random() < 0.7:
-            attrs += stun_attr(0x8022, rb(r, 256))            # length >= 0x100: outside the listed C10 class
+            big = stun_attr(0x8022, rb(r, 256))               # length >= 0x100: outside the listed C10 class
+            pos = r.choice([0, 0, len(attrs)])                # before or after the other attributes
+            attrs = attrs[:pos] + big + attrs[pos:]
         pl.append(stun(0x0001, tx, attrs))
     # exact signature forms
     for _ in range(30 if tier == "quick" else 200):
         pl.append(stun(0x0001, rb(r, 16)))
         pl.append(stun(0x0001, rb(r, 16), stun_change_request(r.random() < 0.5, r.random() < 0.5)))
         pl.append(stun(0x0001, STUN_MAGIC + rb(r, 12)))
+    # CHANGE-REQUEST after / between unknown attributes (magic-cookie form, message length >= 0x100)
+    for cp in (True, False):
+        for ci in (True, False):
+            cr = stun_change_request(ci, cp)
+            u1, u2 = stun_attr(0x8022, rb(r, 252)), stun_attr(0x8028, rb(r, 4))
+            for attrs in (u1 + cr, u1 + u2 + cr, u2 + cr + u1, cr + u1, u1 + cr + u2):
+                pl.append(stun(0x0001, STUN_MAGIC + rb(r, 12), attrs))
     # other classes and methods; wrong lengths; malformed TLVs
     for t in (0x0011, 0x0101, 0x0111, 0x0002, 0x0003, 0x0102, 0x0004, 0x0112, 0x4001, 0x8001, 0x0000, 0x0201):
         pl.append(stun(t, rb(r, 16)))
